@@ -230,7 +230,16 @@ def resume_from_gzindex(ck, P):
                     return True
             return False
         # find the Hcrc arm entry: the block of the switch edge status == Hcrc
-        starts = [tb for b, lab, tb, ats in atoms.edges(fn) for a2 in ats if (lambda s: s.rel == "Eq" and "Hcrc" in s.names and "status" in s.names)(sig.sig(a2, fn))]
+        starts = []
+        for b in sorted(fn.live):
+            for lab, tb in fn.succ[b]:
+                if lab is None or lab[0] == "const":
+                    continue
+                # the test itself, not a named boolean that merely implies it
+                for a2 in fn.edge_atoms(b, lab, expand=False):
+                    s_ = sig.sig(a2, fn)
+                    if s_.rel == "Eq" and "Hcrc" in s_.names and "status" in s_.names:
+                        starts.append(tb)
         leak = flow.reaches_avoiding(fn, starts, [c.bb], cut_edges=room_edge) if starts else True
         ck.decide(not leak, R, "deflate:Hcrc-atomic", "header CRC bytes written only after room for both exists",
                   "the two header-CRC bytes can be written without room for both: a split write recomputes them from a changed running CRC", where(fn, c.line))
